@@ -109,12 +109,12 @@ func buildChars(els []elem, r row) ([]rchar, []spanInfo) {
 				raw[len(raw)-1].post += el.span.right
 			}
 		case 3:
-			c := rchar{r: objRune, adv: ibWidth, atomic: true, pre: pendingPre, spans: append([]int(nil), stack...), fs: curFS(), elem: ei}
+			c := rchar{r: objRune, adv: el.atomic.width, atomic: true, pre: pendingPre, spans: append([]int(nil), stack...), fs: curFS(), elem: ei}
 			pendingPre = 0
-			if el.withT {
+			if el.atomic.height == 0 {
 				c.ascent = -1 // same metrics as the strut (one line of inherited text)
 			} else {
-				c.ascent = ibHeight
+				c.ascent = el.atomic.height
 			}
 			raw = append(raw, c)
 		case 0:
